@@ -443,7 +443,15 @@ impl PartialEq for Value {
             (Value::String(a), Value::String(b)) => a == b,
             (Value::Bool(a), Value::Bool(b)) => a == b,
             (Value::Null, Value::Null) => true,
-            (Value::Vector(a), Value::Vector(b)) => a == b,
+            // Compare vector elements by bit pattern, like Float64 above and like Ord/Hash do:
+            // `f32 ==` would make [NaN] != [NaN] (Eq not reflexive) and [0.0] == [-0.0]
+            // (equal values with different hashes and a non-Equal ordering).
+            (Value::Vector(a), Value::Vector(b)) => {
+                a.len() == b.len()
+                    && a.iter()
+                        .zip(b.iter())
+                        .all(|(x, y)| x.to_bits() == y.to_bits())
+            }
             (Value::VectorInt8(a), Value::VectorInt8(b)) => a == b,
             (Value::Timestamp(a), Value::Timestamp(b)) => a == b,
             _ => false,
